@@ -70,7 +70,15 @@ fn main() {
     let args: Vec<String> = std::env::args().collect();
     let mode = args.get(1).map(|s| s.as_str()).unwrap_or("");
     let repo = arg(&args, "--repo").unwrap_or("/repo").to_string();
-    let verif = arg(&args, "--verif").unwrap_or("/verif").to_string();
+    // default: the tree this binary was built in (<verif>/target/release/sim),
+    // so that subprocesses spawned without arguments (classify, ref-record)
+    // use the same shim and the same customasm binary as their parent
+    let verif_default = std::env::current_exe()
+        .ok()
+        .and_then(|p| p.parent().and_then(|p| p.parent()).and_then(|p| p.parent()).map(|p| p.to_string_lossy().to_string()))
+        .filter(|p| std::path::Path::new(&format!("{}/MANIFEST.json", p)).exists())
+        .unwrap_or_else(|| "/verif".to_string());
+    let verif = arg(&args, "--verif").map(|s| s.to_string()).unwrap_or(verif_default);
     let seed: u64 = arg(&args, "--seed").and_then(|s| s.parse().ok()).or_else(|| std::env::var("VERIF_SEED").ok().and_then(|s| s.parse().ok())).unwrap_or(1);
     let tier = arg(&args, "--tier").map(|s| s.to_string()).or_else(|| std::env::var("VERIF_TIER").ok()).unwrap_or_else(|| "quick".to_string());
     seams::install_panic_hook();
